@@ -71,6 +71,11 @@ def cases(tier, seed=0):
       # multi-range entries fork once per (grid point, range boundary): a smaller grid keeps them inside the path budget
       nr, nrho = (3, 4) if spec.get("concrete") else (5, 4)
       cs.append(Case("potable %s %s" % (m, tgt), EP.potable_case, model_name=m, target=tgt, nr=nr, nrho=nrho))
+  from checks import eam_api as _ea
+  cs += _ea.surplus_cases('DL_POLY_EAM', tier)
+  cs += _ea.surplus_cases('DL_POLY_EAM_fs', tier)
+  cs += _ea.after_failure_cases('DL_POLY_EAM', tier)
+  cs += _ea.after_failure_cases('DL_POLY_EAM_fs', tier)
   return cs
 
 
